@@ -193,10 +193,10 @@ def generate(prop, seed, tier="quick", fault_free=False):
         extra = w.choice([None, None, ["MetaData", {"m": 1}], ["AsAwkwardArray", ["c1"]],
                           ["MetaData", {}]])
         variants = [("base", b)]
-        for kind in EDITS:
+        for kind in EDITS + ["const_type"]:
             if w.random() < 0.6:
                 nb = neighbour(b, kind, w)
-                if nb:
+                if nb and all(nb != v for _, v in variants):
                     variants.append((kind, nb))
         for vk, stages in variants:
             full = stages + ([extra] if extra else [])
@@ -210,7 +210,9 @@ def generate(prop, seed, tier="quick", fault_free=False):
                       "qmd": (not fault_free) and w.random() < 0.3,
                       "exec_before": (not fault_free) and w.random() < 0.15,
                       "want_pickle": (not fault_free) and w.random() < 0.4,
-                      "hash_early": (not fault_free) and w.random() < 0.35}
+                      "hash_early": (not fault_free) and w.random() < 0.35,
+                      # callable mode: constants are captured module globals, not literals
+                      "lift": w.random() < 0.5}
                 if not fault_free:
                     if f.random() < 0.25:
                         op["clock_jump"] = f.choice([1.0, 86400.0, 3.0e8])
@@ -247,7 +249,7 @@ def _how(a, b):
         out.append("cross_process")
     for k, tag in (("mode", "other_supply_mode"), ("layout", "other_layout"),
                    ("dataset", "other_dataset"), ("qmd", "annotations"),
-                   ("exec_before", "executed_before")):
+                   ("exec_before", "executed_before"), ("lift", "captured_constants")):
         if a.get(k) != b.get(k):
             out.append(tag)
     if a.get("rehash") != b.get("rehash"):
@@ -344,6 +346,26 @@ def execute(case):
             viol = {"class": "C20/merge", "detail": {
                 "kind": f"{a[0].get('variant')}~{b[0].get('variant')}", "a": _brief(a[0]), "b": _brief(b[0]),
                 "hash": h}}
+    # the same user-level query (same stages, same back-end pass, same dataset slot) must hash
+    # alike however and wherever it was built: other process, supply mode, layout, constants
+    # captured instead of written, annotations, executed before, hashed earlier
+    by_spec = {}
+    for meta, h, c in results:
+        if meta.get("post") == "simplify" or meta.get("received"):
+            continue  # fresh names depend on the node's counter; received ASTs are stripped
+        key = json.dumps([meta.get("stages"), meta.get("post"), meta.get("dataset", 0) % 3])
+        by_spec.setdefault(key, []).append((meta, h))
+    for key, lst in by_spec.items():
+        for i in range(1, len(lst)):
+            stat("same_spec_pairs")
+            if lst[i][0].get("lift") and lst[i][0].get("mode") == "callable":
+                stat("probe_same_spec_captured_constants")
+            if lst[i][1] != lst[0][1] and viol is None:
+                how = _how(lst[0][0], lst[i][0])
+                viol = {"class": "C20/split", "detail": {
+                    "kind": "same-query:" + ("+".join(how) or "same-build"),
+                    "a": _brief(lst[0][0]), "b": _brief(lst[i][0]),
+                    "hash_a": lst[0][1], "hash_b": lst[i][1]}}
     # neighbour pairs: base vs its single-edit variants must be told apart iff canon differs
     bases = {}
     for meta, h, c in results:
@@ -373,13 +395,14 @@ def execute(case):
 
 def _brief(b):
     return {k: b.get(k) for k in ("id", "node", "variant", "stages", "mode", "layout", "post", "qmd",
-                                  "exec_before", "rehash", "dataset") if b.get(k) is not None}
+                                  "exec_before", "rehash", "dataset", "lift", "hash_early")
+            if b.get(k) is not None}
 
 
 def op_simplifications(op):
     out = []
     for k in ("clock_jump", "annotate", "relocate", "qmd", "exec_before", "want_pickle", "post",
-              "hash_early"):
+              "hash_early", "lift"):
         if op.get(k):
             o = dict(op)
             o[k] = None if k in ("post", "clock_jump") else False
